@@ -32,6 +32,7 @@ type solveResult struct {
 	ms     int64
 	output string
 	all    map[string]string
+	errors []string
 }
 
 var scratchDir = func() string {
@@ -91,6 +92,10 @@ func raceSolve(queries map[string]string, name string, timeoutMs int, wantModel 
 				st = "unsat"
 			case "sat":
 				st = "sat"
+			default:
+				if strings.HasPrefix(first, "(error") && !strings.Contains(first, "timeout") && !strings.Contains(first, "interrupted") {
+					st = "error"
+				}
 			}
 			ch <- res{sp.name, st, out.String(), time.Since(t0).Milliseconds()}
 		}(sp, file)
@@ -99,6 +104,10 @@ func raceSolve(queries map[string]string, name string, timeoutMs int, wantModel 
 	for i := 0; i < n; i++ {
 		r := <-ch
 		best.all[r.solver] = r.status
+		if r.status == "error" {
+			best.errors = append(best.errors, r.solver+": "+firstLines(r.out, 2))
+			r.status = "unknown"
+		}
 		if best.status == "unknown" && r.status != "unknown" {
 			best.status, best.solver, best.ms, best.output = r.status, r.solver, r.ms, r.out
 			cancel()
@@ -154,6 +163,10 @@ func (vc *VC) dischargeWith(timeoutMs int, par int, keepDir string, which []stri
 			qs := q([]*Oblig{o})
 			r := raceSolve(qs, o.Name, timeoutMs, which == nil, which)
 			o.Status, o.Solver, o.Ms = r.status, r.solver, r.ms
+			if r.status == "unknown" && len(r.errors) >= 2 {
+				o.Status = "error"
+				o.Model = strings.Join(r.errors, "; ")
+			}
 			if r.status == "sat" {
 				o.Model = r.output
 			} else if r.status == "unknown" {
